@@ -16,7 +16,7 @@ for p in sorted(root.rglob("*.py")):
     for qual, fn in walk_functions(tree):
         allf.append(qual)
         h, names = alpha_hash(fn)
-        d[qual] = {"hash": h, "locals": names}
+        d[qual] = {"hash": h, "locals": names, "decorators": sorted(ast.unparse(x) for x in fn.decorator_list)}
     d["__functions__"] = sorted(allf)
     import hashlib
     d["__module_hash__"] = hashlib.sha1(ast.dump(tree, include_attributes=False).encode()).hexdigest()[:16]
